@@ -1100,18 +1100,29 @@ class Model:
                 if f["kind"] != "fn" or f["name"] != "serialize" or not f.get("body"):
                     continue
                 body = f["body"].replace(" ", "")
+                sig = f["sig"].replace(" ", "")
                 if tr == "" and st == "AuthenticatorData<'a,A,E>" and imp["module"] == "ctap2":
-                    steps = self.layout_of("AuthenticatorData::serialize", body, "bytes", "self", tail="Ok(bytes)")
+                    bm = re.search(r"letmut(\w+)=SerializedAuthenticatorData::new\(\)", body)
+                    if not bm:
+                        raise Untranslatable("AuthenticatorData::serialize", "buffer initialisation not found")
+                    steps = self.layout_of("AuthenticatorData::serialize", body, bm.group(1), "self", tail=f"Ok({bm.group(1)})")
                     for s_ in steps:
                         if s_["k"] == "be":
                             s_["w"] = self.int_width("AuthenticatorData", "ctap2", s_["f"], feats)
                     lay["authData"] = steps
                 if tr == "super::SerializeAttestedCredentialData" and st == "AttestedCredentialData<'a>":
-                    lay["attested"] = self.layout_of("AttestedCredentialData::serialize", body, "buffer", "self", tail="Ok(())")
+                    bm = re.search(r"\(&self,(\w+):&mut", sig)
+                    if not bm:
+                        raise Untranslatable("AttestedCredentialData::serialize", "buffer parameter not found")
+                    lay["attested"] = self.layout_of("AttestedCredentialData::serialize", body, bm.group(1), "self", tail="Ok(())")
                 if tr == "" and st == "Response" and imp["module"] == "ctap1":
                     mt = f["matches"][0] if f.get("matches") else None
                     if mt is None or mt["scrutinee"].strip() != "self" or body.count("match") != 1:
                         raise Untranslatable("ctap1::Response::serialize", "expected a single `match self`")
+                    bm = re.search(r"\(&self,(\w+):&mut", sig)
+                    if not bm:
+                        raise Untranslatable("ctap1::Response::serialize", "buffer parameter not found")
+                    u2fbuf = bm.group(1)
                     for arm in mt["arms"]:
                         pat = arm["pat"].replace(" ", "")
                         mm = re.fullmatch(r"Response::(\w+)\((\w+)\)", pat)
@@ -1121,7 +1132,7 @@ class Model:
                         ab = arm["body"].replace(" ", "")
                         if not ab.startswith("{"):
                             ab = "{" + ab + "}"
-                        steps = self.layout_of("ctap1::Response::serialize/" + variant, ab, "buf", var,
+                        steps = self.layout_of("ctap1::Response::serialize/" + variant, ab, u2fbuf, var,
                                                bound={var: "version"} if variant == "Version" else None, last_may_lack_q=True)
                         sname = {"Register": ("register", "Response"), "Authenticate": ("authenticate", "Response")}.get(variant)
                         for s_ in steps:
@@ -1553,13 +1564,15 @@ class Model:
         return cls.alpha(framed.replace("(& op , data)", "(& OP , DATA)").replace(" ,)", ")").replace(",)", ")"))
 
     def op_switch(self, f):
-        fr = self.frame_of(f["body"], "operation")
+        am = re.search(r"let (\w+) = Operation :: try_from", f["body"])
+        opvar = am.group(1) if am else "operation"
+        fr = self.frame_of(f["body"], opvar)
         if fr != self.alpha(self.REQ_FRAME.replace("(& op , data)", "(& OP , DATA)").replace(" ,)", ")")):
             raise Untranslatable("Request::deserialize", "the code around the operation switch (empty-input guard, split_first, "
                                  "Operation::try_from → InvalidCommand) is not of the recognised shape")
         m = None
         for mm in f["matches"]:
-            if mm["scrutinee"].strip() == "operation":
+            if mm["scrutinee"].strip() == opvar:
                 m = mm
         if m is None:
             raise Untranslatable("Request::deserialize", "operation switch not found")
@@ -1583,7 +1596,7 @@ class Model:
                     raise Untranslatable("Request::deserialize", f"odd arm {arm['body']}")
             for o in ops:
                 arms.append({"op": o, **kind})
-        pre = f["body"].split("Ok (match operation")[0]
+        pre = f["body"].split("Ok (match " + opvar)[0]
         return {"arms": arms,
                 "empty_guard": "data . is_empty ()" in pre and "DeserializeUnexpectedEnd" in pre,
                 "uses_try_from": "Operation :: try_from (op)" in pre}
@@ -1647,6 +1660,9 @@ class Model:
                 raise Untranslatable(name, f"arm for {pm.group(1)} is not a plain handler call: {core[:120]}")
             calls = re.findall(r"(?:self|Self) (?:\.|::) (\w+) \(([^()]*)\)", body)
             calls = [(c, a.replace(" ", "")) for c, a in calls if c not in ("inspect_err",)]
+            for c_, a_ in calls:
+                if a_.lstrip("*") != (pm.group(3) or ""):
+                    raise Untranslatable(name, f"arm for {pm.group(1)} does not pass the request's own payload to {c_}")
             rv = re.findall(r"Response :: (\w+)", body)
             arms.append({"request": pm.group(1), "binds": pm.group(3),
                          "calls": [{"method": c, "args": a} for c, a in calls],
